@@ -12,12 +12,14 @@ Mk(n, feat, never, b) ==
 Feats == {"std", "alloc"}
 
 CfgsQuick ==
+  {[reuse |-> TRUE] @@ Mk(2, f, <<>>, B(FALSE, 1, 1, 1, 0, 1, 0, FALSE, FALSE, FALSE)) : f \in Feats} \cup
   {Mk(2, f, <<>>, B(FALSE, 1, 2, 2, 1, 1, 1, TRUE, TRUE, TRUE)) : f \in Feats}
   \cup {Mk(2, f, <<1>>, B(FALSE, 1, 1, 2, 1, 1, 1, FALSE, FALSE, FALSE)) : f \in Feats}
   \cup {Mk(3, "std", <<>>, B(FALSE, 1, 1, 1, 0, 1, 1, FALSE, FALSE, FALSE))}
   \cup {Mk(1, f, <<>>, B(FALSE, 1, 2, 1, 0, 1, 1, TRUE, FALSE, FALSE)) : f \in Feats}
 
 CfgsThorough ==
+  CfgsQuick \cup
   {Mk(2, f, nv, B(FALSE, 2, 2, 3, 1, 1, 2, TRUE, TRUE, TRUE)) : f \in Feats, nv \in {<<>>, <<0>>}}
   \cup {Mk(3, f, nv, B(FALSE, 1, 2, 2, 1, 1, 1, TRUE, FALSE, FALSE)) : f \in Feats, nv \in {<<>>, <<1>>}}
   \cup {Mk(4, "std", <<>>, B(FALSE, 1, 1, 1, 0, 1, 0, FALSE, FALSE, FALSE))}
